@@ -225,14 +225,21 @@ def mk_mem(text):
             return text
     return MyMem
 
+# four distinct Memory classes that all answer name() == "MyMem" (a class factory), created with PRE_K, 2*PRE_K+1
+# and 3*PRE_K+2 unrelated classes in between: only their ADDRESSES differ between the variants
 M1 = mk_mem("// MyMem variant ONE")
-_padding = [type("Pad%d" % i, (object,), {}) for i in range(PRE_K)]
+_padding1 = [type("PadA%d" % i, (object,), {}) for i in range(PRE_K)]
 M2 = mk_mem("// MyMem variant TWO")
+_padding2 = [type("PadB%d" % i, (object,), {}) for i in range(2 * PRE_K + 1)]
+M3 = mk_mem("// MyMem variant THREE")
+_padding3 = [type("PadC%d" % i, (object,), {}) for i in range(3 * PRE_K + 2)]
+M4 = mk_mem("// MyMem variant FOUR")
 
 @proc
-def mm(x: f32[4] @ M1, y: f32[4] @ M2):
+def mm(x: f32[4] @ M1, y: f32[4] @ M2, z: f32[4] @ M3, w: f32[4] @ M4):
     for i in seq(0, 4):
         y[i] = x[i]
+        w[i] = z[i]
 
 SESSION = {"print": [mm], "compile": [[mm]]}
 ''', witness="prior-history")
@@ -249,24 +256,19 @@ class _Twice(Extern):
     def compile(self, args, prim_type):
         return "twice(" + args[0] + ")"
 
-E1 = _Twice("// extern twice variant ONE")
-_padding = [object() for i in range(PRE_K)]
-E2 = _Twice("// extern twice variant TWO")
-twice = E1
-twice2 = E2
-
-@proc
-def e1(x: f32[4]):
-    x[0] = twice(x[1])
-
-@proc
-def e2(x: f32[4]):
-    x[0] = twice2(x[1])
+# four distinct Extern objects with one name() and different globl() text
+twice1 = _Twice("// extern twice variant ONE")
+_padding1 = [object() for i in range(PRE_K)]
+twice2 = _Twice("// extern twice variant TWO")
+_padding2 = [[i] for i in range(2 * PRE_K + 1)]
+twice3 = _Twice("// extern twice variant THREE")
+_padding3 = [{i: i} for i in range(3 * PRE_K + 2)]
+twice4 = _Twice("// extern twice variant FOUR")
 
 @proc
 def ee(x: f32[4]):
-    e1(x)
-    e2(x)
+    x[0] = twice1(x[1]) + twice2(x[2])
+    x[1] = twice3(x[1]) + twice4(x[2])
 
 SESSION = {"print": [ee], "compile": [[ee]]}
 ''', witness="prior-history")
